@@ -17,8 +17,8 @@
 //!             M<k>:<ml>[@s]            eval_value then manifest_json(multiline = ml)
 //!             H<k>:<ml>[@s]            manifest_json of the Value kept from the last successful E/M<k>
 //!                                      (evaluates first when none is kept — which is what a fresh state does)
-//!             K<k>:<ml>[@s]            manifest_json of the Value kept from the last successful C<k>
-//!                                      (a fresh state re-runs the last C<k> of the sequence first)
+//!             K<k>:<ml>[@s]            manifest_json of the Value kept from the last C<k> if it succeeded
+//!                                      (otherwise, and on a fresh state, the last C<k> of the sequence is re-run first)
 //!             G                        Program::gc()
 //!           `@s` = set_max_stack(s) for this request.
 //!
@@ -245,6 +245,8 @@ impl<'p, 'a> State<'p, 'a> {
     }
 
     fn call(&mut self, k: usize, pos: &[usize], named: &[(String, usize)]) -> Result<Value<'p>, String> {
+        // nothing is kept from a failed call: K<k> then re-runs it, as a fresh state does
+        self.held_call.remove(&k);
         let f = self.root(k)?;
         let mut p = Vec::new();
         for &j in pos {
